@@ -349,6 +349,7 @@ def handle (line : String) : String :=
   | ["didundef", _, _] => s!"str={Bytes.toHexTok (DidM.toString DidM.undef)}|bytes={Bytes.toHexTok (DidM.bytes DidM.undef)}\t-"
   | ["keys", _, _, _, _] => "ok\t-"
   | ["cardec", inp, impl] => doCar "cardec" [inp] impl
+  | ["cardecx", inp, impl] => doCar "cardec" [inp] impl
   | ["carrt", r, b, impl] => doCar "carrt" [r, b] impl
   | ["cartrunc", r, b, impl] => doCar "cartrunc" [r, b] impl
   | ["carflip", r, b, m, impl] => doCar "carflip" [r, b, m] impl
@@ -376,6 +377,7 @@ def handle (line : String) : String :=
   | ["cborblock", h, _, _] => doCborBlock h
   | ["bsconc", _, _, _, _, _, impl] => (if impl.startsWith "consistent:" then impl else "consistent") ++ "\t-"
   | ["req", _, impl] => (if impl.startsWith "status:" || impl == "error" || impl.startsWith "skip:" then impl else "status-or-error") ++ "\t-"
+  | ["reqcraft", _, _, _, impl] => (if impl.startsWith "status:" || impl == "error" || impl.startsWith "skip:" then impl else "status-or-error") ++ "\t-"
   | ["reqmut", _, _, _, impl] => (if impl.startsWith "status:" || impl == "error" || impl.startsWith "skip:" then impl else "status-or-error") ++ "\t-"
   | ["resp", _, _, _, _, impl] => (if impl == "response" || impl == "error" then impl else "response-or-error") ++ "\t-"
   | ["resp", _, _, _, impl] => (if impl == "response" || impl == "error" then impl else "response-or-error") ++ "\t-"
